@@ -2,7 +2,10 @@
 Every program is run through the real CLI with only that codemod enabled; if the file changed, original and rewritten
 program are executed (`python -I`, own temp cwd, timeout) and (stdout, exception type, exit status) compared.
 No theorem covers these codemods: a difference is a VIOLATION with the program as replay (class `kf_unmodelled_<codemod>`);
-nothing is proved when there is none."""
+nothing is proved when there is none.
+Second stage (all codemods, modelled ones included): the same programs, and concatenations with several rewrite sites, are
+re-run under random `--path-exclude file:line` / `--path-include file:line` configurations around the lines the full rewrite
+touches; original and rewritten behaviour are compared again (class `kf_line_filter_<codemod>`)."""
 from __future__ import annotations
 
 import concurrent.futures
@@ -85,31 +88,115 @@ def families(rng, quick):
     add("remove-module-global", "simple", "global x\nx = 1\nx = x + 1\nprint(x)\n")
     add("remove-module-global", "two", "global a, b\na = 1\nb = 2\nprint(a + b)\ndef f():\n    global a\n    a = 5\nf()\nprint(a)\n")
     add("remove-module-global", "in-if", "import sys\nif len(sys.argv) >= 0:\n    global c\n    c = 3\nprint(c)\n")
-    # ---- sql-parameterization (benign parameter values)
-    sql_pre = ("import sqlite3\nconn = sqlite3.connect(':memory:')\ncur = conn.cursor()\ncur.execute('CREATE TABLE t (name TEXT, n INTEGER)')\n"
-               "cur.executemany('INSERT INTO t VALUES (?, ?)', [('bob', 1), ('al', 2), ('bob', 3), (\"o'x\", 4)])\n")
-    for val in ["bob", "al", "nobody", ""]:
-        for q in ['"SELECT * FROM t WHERE name = \'" + name + "\'"', '"SELECT n FROM t WHERE name = \'" + name + "\' ORDER BY n"',
-                  'f"SELECT * FROM t WHERE name = \'{name}\'"', '"SELECT * FROM t WHERE name = \'%s\'" % name',
-                  '"SELECT * FROM t WHERE name = \'{}\'".format(name)', '"SELECT * FROM t WHERE name LIKE \'" + name + "%\'"',
-                  '"SELECT * FROM t WHERE name = \'" + name + "\' AND n > 0"']:
-            add("sql-parameterization", f"{val}:{q}", sql_pre + f"name = {val!r}\ncur.execute({q})\nprint(cur.fetchall())\n")
-            add("sql-parameterization", f"fn:{val}:{q}", sql_pre + f"def look(name):\n    cur.execute({q})\n    return cur.fetchall()\nprint(look({val!r}))\n")
+    # ---- sql-parameterization (benign parameter values): see sql_programs()
+    for name, src in sql_programs(rng, 40 if quick else 400):
+        add("sql-parameterization", name, src)
+    no_concat = {"remove-future-imports", "remove-module-global"}
+    for p in out:
+        p["concat_ok"] = p["codemod"] not in no_concat
     if quick:
         keep = {}
         rng.shuffle(out)
         for p in out:
             keep.setdefault(p["codemod"], [])
-            if len(keep[p["codemod"]]) < 14:
+            if len(keep[p["codemod"]]) < (30 if p["codemod"] == "sql-parameterization" else 14):
                 keep[p["codemod"]].append(p)
         out = [p for ps in keep.values() for p in ps]
     return out
 
 
-def execute(ctx, idx, tag, source):
-    d = ctx.scratch / "fam-exec" / f"{idx}-{tag}"
+SQL_PRE = ("import sqlite3\nconn = sqlite3.connect(':memory:')\ncursor = conn.cursor()\n"
+           "cursor.execute('CREATE TABLE users (name TEXT, role TEXT, phone TEXT, note TEXT)')\n"
+           "cursor.executemany('INSERT INTO users VALUES (?, ?, ?, ?)', [('ann', 'admin', '1', 'a b'), ('bob', 'admin', '2', \"it's\"), "
+           "('cy', 'user', '3', 'x%y'), ('di', 'user', '1', ''), (\"o'neil\", 'admin', '5', 'a b')])\n")
+SQL_VALUES = {"name": ["ann", "bob", "nobody", "cy", ""], "role": ["admin", "user", "none"], "phone": ["1", "2", "9"], "note": ["a b", "zz"]}
+SQL_LITERALS = {"role": ["'admin'", "'user'"], "phone": ["'1'", "'3'"], "note": ["'a b'", "'it''s'", "'x%y'", "''"], "name": ["'ann'", "'o''neil'"]}
+
+
+def py_literal(text, q, prefix=""):
+    """Python string literal of `text` with quote character q (the SQL text only has single quotes, % and printable ASCII)"""
+    body = text.replace("\\", "\\\\")
+    if q == "'":
+        body = body.replace("'", "\\'")
+    return prefix + q + body + q
+
+
+def sql_programs(rng, n):
+    """queries whose text pieces hold zero, one or several complete quoted SQL literals (also with escaped quotes '') around one to
+    three quoted parameters; rendered as concatenation, f-string, % and .format, with either Python quote; executed against an
+    in-memory table for parameter values that select existing rows or none"""
+    out = []
+    for k in range(n):
+        cols = ["name", "role", "phone", "note"]
+        rng.shuffle(cols)
+        nconds = rng.randint(1, 4)
+        npar = rng.randint(1, min(3, nconds))
+        par_pos = set(rng.sample(range(nconds), npar))
+        segs, params = ["SELECT name, phone FROM users WHERE "], []       # segs alternates text, ("par", var) ...
+        for ci in range(nconds):
+            col = cols[ci % 4]
+            if ci:
+                segs[-1] += rng.choice([" AND ", " AND ", " OR "])
+            if ci in par_pos:
+                var = f"p{len(params)}"
+                params.append((var, rng.choice(SQL_VALUES[col])))
+                like = rng.random() < 0.15
+                segs[-1] += f"{col} LIKE '" if like else f"{col} = '"
+                segs.append(("par", var))
+                segs.append("%'" if like else "'")
+            else:
+                segs[-1] += f"{col} = {rng.choice(SQL_LITERALS[col])}"
+        segs[-1] += rng.choice([" ORDER BY phone, name", " ORDER BY name", ""])
+        form = rng.choice(["concat"] * 6 + ["fstring"] * 3 + ["percent"] * 3 + ["format", "format_named"])
+        q = rng.choice(['"', '"', "'"])
+        texts = [x for x in segs if isinstance(x, str)]
+        pars = [x[1] for x in segs if not isinstance(x, str)]
+        if form == "concat":
+            parts = []
+            for x in segs:
+                parts.append(py_literal(x, q) if isinstance(x, str) else x[1])
+            if rng.random() < 0.3 and len(parts) >= 3:      # a piece split in two adjacent literals
+                i0 = rng.randrange(len(segs))
+                if isinstance(segs[i0], str) and len(segs[i0]) > 4:
+                    cut = rng.randrange(1, len(segs[i0]))
+                    parts[i0] = py_literal(segs[i0][:cut], q) + " + " + py_literal(segs[i0][cut:], rng.choice(['"', "'"]))
+            expr = " + ".join(parts)
+        elif form == "fstring":
+            expr = "f" + q + "".join((x.replace("\\", "\\\\").replace(q, "\\" + q) if q == "'" else x) if isinstance(x, str) else "{" + x[1] + "}"
+                                     for x in segs) + q
+        elif form == "percent":
+            body = "".join(x.replace("%", "%%") if isinstance(x, str) else "%s" for x in segs)
+            expr = py_literal(body, q) + " % " + ("(" + ", ".join(pars) + ("," if len(pars) == 1 else "") + ")")
+        elif form == "format":
+            body = "".join(x if isinstance(x, str) else "{}" for x in segs)
+            expr = py_literal(body, q) + ".format(" + ", ".join(pars) + ")"
+        else:
+            body = "".join(x if isinstance(x, str) else "{" + x[1] + "}" for x in segs)
+            expr = py_literal(body, q) + ".format(" + ", ".join(f"{v}={v}" for v in pars) + ")"
+        # the codemod parameterizes expressions it cannot resolve to literals: function parameters, results of calls
+        shape = rng.choice(["function", "function", "function", "function_var", "function_cursor", "module_call"])
+        args = ", ".join(v for v, _ in params)
+        calls = ("".join(f"print(look({', '.join(repr(rng.choice(SQL_VALUES[c])) for _ in params)}))\n" for c in ["name", "role"])
+                 + f"print(look({', '.join(repr(val) for _, val in params)}))\n")
+        if shape == "function":
+            body = f"def look({args}):\n    cursor.execute({expr})\n    return cursor.fetchall()\n" + calls
+        elif shape == "function_var":
+            body = f"def look({args}):\n    query = {expr}\n    cursor.execute(query)\n    return cursor.fetchall()\n" + calls
+        elif shape == "function_cursor":
+            body = f"def look({args}):\n    cur = conn.cursor()\n    cur.execute({expr})\n    rows = cur.fetchall()\n    return rows\n" + calls
+        else:
+            body = ("def ident(x):\n    return x\n" + "".join(f"{v} = ident({val!r})\n" for v, val in params)
+                    + f"cursor.execute({expr})\nprint(cursor.fetchall())\n")
+        out.append((f"{form}:{q}:{shape}:{nconds}c{npar}p:{k}", SQL_PRE + body))
+    return out
+
+
+def execute(ctx, key, source, extra_files=None):
+    d = ctx.scratch / "fam-exec" / key
     d.mkdir(parents=True, exist_ok=True)
     (d / "prog.py").write_text(source)
+    for name, text in (extra_files or {}).items():
+        (d / name).write_text(text)
     try:
         p = subprocess.run([core.PY, "-I", "-c", WRAP, "prog.py"], cwd=d, stdout=subprocess.PIPE, stderr=subprocess.DEVNULL, timeout=30,
                            env={"PATH": "/usr/bin:/bin"})
@@ -118,42 +205,182 @@ def execute(ctx, idx, tag, source):
         return ("TIMEOUT", -9)
 
 
-def run(ctx):
-    progs = families(ctx.rng, ctx.quick())
-    by = {}
-    for i, p in enumerate(progs):
-        by.setdefault(p["codemod"], []).append((i, p))
+def rewrite(ctx, jobs, tag, per_run=40):
+    """jobs: dicts with codemod, source and optionally exclude / include (lists of line numbers).  Each job becomes its own file;
+    one CLI run per (codemod, kind of configuration, batch): the line patterns of all its files are passed together as
+    `--path-exclude f1.py:3,f2.py:7,...` (resp. `--path-include`).  Sets job["after"]."""
+    groups = {}
+    for n, j in enumerate(jobs):
+        j["file"] = f"m{n:05d}.py"
+        mode = "exclude" if j.get("exclude") else "include" if j.get("include") else "plain"
+        groups.setdefault((j["codemod"], mode), []).append(j)
+    # sql-parameterization needs ~0.6 s per file, the others a few ms: small batches spread it over the worker pool
+    size = lambda cm: {"sql-parameterization": 6, "lazy-logging": 12, "bad-lock-with-statement": 12}.get(cm, per_run)
+    batches = [(cm, mode, items[o:o + size(cm)]) for (cm, mode), items in groups.items() for o in range(0, len(items), size(cm))]
+    batches.sort(key=lambda b: -len(b[2]) * (20 if b[0] == "sql-parameterization" else 1))
 
-    def one(cm, items):
-        root = ctx.scratch / f"fam-{cm}"
+    def one(nb):
+        n, (cm, mode, items) = nb
+        root = ctx.scratch / f"{tag}-{n}"
         root.mkdir(parents=True)
-        for i, p in items:
-            (root / f"p{i:04d}.py").write_text(p["source"])
-        r = core.run_cli([str(root), "--output", str(ctx.scratch / f"fam-{cm}.json"), "--codemod-include", f"pixee:python/{cm}"],
-                         cwd=ctx.scratch, timeout=900)
-        return cm, r, {i: (root / f"p{i:04d}.py").read_text() for i, _ in items}
-    with concurrent.futures.ThreadPoolExecutor(max_workers=10) as ex:
-        results = list(ex.map(lambda kv: one(*kv), by.items()))
-    jobs = []
-    for cm, r, after in results:
-        ctx.cli_runs += 1
-        if r["rc"] != 0:
-            ctx.notes.append(f"unmodelled family {cm}: CLI exit {r['rc']}: {r['stderr'][-300:]}")
-            continue
-        for i, p in by[cm]:
-            p["after"] = after[i]
-            p["changed"] = after[i] != p["source"]
-            ctx.count(f"family:{cm}:" + ("changed" if p["changed"] else "unchanged"))
-            if p["changed"]:
-                jobs.append((i, p))
+        for j in items:
+            (root / j["file"]).write_text(j["source"])
+        args = [str(root), "--output", str(ctx.scratch / f"{tag}-{n}.json"), "--codemod-include", f"pixee:python/{cm}"]
+        if mode != "plain":
+            pats = [f"{j['file']}:{ln}" for j in items for ln in j[mode]]
+            args += [f"--path-{mode}", ",".join(pats)]
+        r = core.run_cli(args, cwd=ctx.scratch, timeout=900)
+        for j in items:
+            j["after"] = (root / j["file"]).read_text() if r["rc"] == 0 else None
+        return cm, mode, r
+    with concurrent.futures.ThreadPoolExecutor(max_workers=min(14, core.NCPU)) as ex:
+        for cm, mode, r in ex.map(one, enumerate(batches)):
+            ctx.cli_runs += 1
+            if r["rc"] != 0:
+                ctx.mismatch(f"real CLI run of {cm} ({mode})", "the codemodder CLI failed on a generated project: " + r["stderr"][-400:], {"codemod": cm})
+
+
+def compare(ctx, jobs, tag, cls_prefix):
+    """execute original and rewritten program of every job whose file changed; any difference is a violation"""
+    changed = [j for j in jobs if j.get("after") is not None and j["after"] != j["source"]]
+    # every distinct (program, auxiliary files) is executed once, in its own directory
+    keys, order = {}, []
+    for j in changed:
+        for src in (j["source"], j["after"]):
+            k = (src, tuple(sorted((j.get("extra_files") or {}).items())))
+            if k not in keys:
+                keys[k] = len(order)
+                order.append(k)
     with concurrent.futures.ThreadPoolExecutor(max_workers=12) as ex:
-        before = list(ex.map(lambda ip: execute(ctx, ip[0], "a", ip[1]["source"]), jobs))
-        afterr = list(ex.map(lambda ip: execute(ctx, ip[0], "b", ip[1]["after"]), jobs))
-    for (i, p), b, a in zip(jobs, before, afterr):
-        ctx.case({"codemod": p["codemod"], "family": p["name"], "source": p["source"], "rewritten": p["after"], "observed": b},
-                 nontrivial_key=("family", p["codemod"], p["source"]), sample=False)
+        results = list(ex.map(lambda nk: execute(ctx, f"{tag}-{nk[0]}", nk[1][0], dict(nk[1][1])), enumerate(order)))
+
+    def obs(j, src):
+        return results[keys[(src, tuple(sorted((j.get("extra_files") or {}).items())))]]
+    before = [obs(j, j["source"]) for j in changed]
+    after = [obs(j, j["after"]) for j in changed]
+    for j, b, a in zip(changed, before, after):
+        cfg = ("--path-exclude " + ",".join(f"prog.py:{n}" for n in j["exclude"]) if j.get("exclude") else
+               "--path-include " + ",".join(f"prog.py:{n}" for n in j["include"]) if j.get("include") else "")
+        ctx.case({"codemod": j["codemod"], "family": j["name"], "configuration": cfg, "source": j["source"], "rewritten": j["after"], "observed": b},
+                 nontrivial_key=("family", j["codemod"], j["source"], cfg), sample=False)
+        j["obs"], j["obs_after"] = b, a
         if b != a:
-            ctx.violation("kf_unmodelled_" + p["codemod"].replace("-", "_"),
-                          f"{p['codemod']} changes behaviour of program family {p['name']}: {b!r} -> {a!r}",
-                          {"codemod": p["codemod"], "family": p["name"], "program": p["source"], "rewritten": p["after"],
+            ctx.violation(cls_prefix + j["codemod"].replace("-", "_"),
+                          f"{j['codemod']} {cfg} changes the behaviour of program family {j['name']}: {b!r} -> {a!r}",
+                          {"codemod": j["codemod"], "family": j["name"], "program": j["source"], "rewritten": j["after"],
+                           "exclude": j.get("exclude"), "include": j.get("include"), "extra_files": j.get("extra_files"),
                            "observed_original": b, "observed_rewritten": a})
+    return changed
+
+
+def changed_lines(before: str, after: str):
+    """1-based line numbers of the original that a rewrite touches (changed, deleted, or next to an insertion)"""
+    import difflib
+    a, b = before.splitlines(), after.splitlines()
+    out = set()
+    for op, i1, i2, j1, j2 in difflib.SequenceMatcher(a=a, b=b, autojunk=False).get_opcodes():
+        if op == "equal":
+            continue
+        out.update(range(i1 + 1, max(i2, i1 + 1) + 1))
+    return sorted(n for n in out if 1 <= n <= len(a))
+
+
+def line_configs(rng, source, touched, k):
+    """k line-level configurations around the lines a full rewrite touches: single lines, pairs, neighbours (the other lines of a
+    multi-line statement / of the statement pair a rewrite spans)"""
+    n = len(source.splitlines())
+    near = sorted({m for t in touched for m in (t - 1, t, t + 1, t + 2) if 1 <= m <= n})
+    if not near:
+        return []
+    cands = [("exclude", [t]) for t in near] + [("include", [t]) for t in near]
+    cands += [("exclude", sorted(p)) for p in itertools.combinations(near, 2)][:40]
+    cands += [("include", sorted(p)) for p in itertools.combinations(near, 2)][:40]
+    rng.shuffle(cands)
+    # always keep at least one single-line exclusion and one single-line inclusion of a touched line
+    first = [("exclude", [rng.choice(touched)]), ("include", [rng.choice(touched)])]
+    seen, out = set(), []
+    for c in first + cands:
+        key = (c[0], tuple(c[1]))
+        if key not in seen:
+            seen.add(key)
+            out.append(c)
+        if len(out) >= k:
+            break
+    return out
+
+
+def line_stage(ctx, base_jobs):
+    """C08 quantifies over every configuration under which K makes a change: re-run the programs under `path:line` excludes /
+    includes (single lines, pairs, lines of multi-line statements) and compare behaviour again."""
+    rng = ctx.rng
+    progs = [j for j in base_jobs if j.get("after") is not None and j["after"] != j["source"] and j.get("obs") == j.get("obs_after")]
+    # programs with several rewrite sites: concatenations of programs of one codemod (a line filter that suppresses one site must
+    # leave the others, and the file, consistent)
+    by = {}
+    for j in progs:
+        if j.get("concat_ok", True):
+            by.setdefault(j["codemod"], []).append(j)
+    multi = []
+    for cm, items in by.items():
+        for _ in range(min(len(items), 4 if ctx.quick() else 12)):
+            parts = rng.sample(items, min(len(items), rng.choice([2, 2, 3])))
+            src = "".join(p["source"] if p["source"].endswith("\n") else p["source"] + "\n" for p in parts)
+            extra = {}
+            for p in parts:
+                extra.update(p.get("extra_files") or {})
+            multi.append({"codemod": cm, "name": "concat(" + " | ".join(p["name"] for p in parts) + ")", "source": src, "extra_files": extra})
+    rewrite(ctx, multi, "lines-multi")
+    compare(ctx, multi, "lines-multi", "kf_unmodelled_")
+    pool = progs + [m for m in multi if m.get("after") is not None and m["after"] != m["source"] and m.get("obs") == m.get("obs_after")]
+    jobs = []
+    per_prog = 3 if ctx.quick() else 8
+    if ctx.quick():
+        # bound the cost: a sample of single programs, every multi-site program
+        singles = [p for p in pool if not p["name"].startswith("concat(")]
+        rng.shuffle(singles)
+        pool = singles[:120] + [p for p in pool if p["name"].startswith("concat(")]
+    for p in pool:
+        touched = changed_lines(p["source"], p["after"])
+        for mode, lines in line_configs(rng, p["source"], touched, per_prog + (3 if p["name"].startswith("concat(") else 0)):
+            jobs.append({"codemod": p["codemod"], "name": p["name"], "source": p["source"], mode: lines, "extra_files": p.get("extra_files")})
+            ctx.count(f"line_config:{mode}:{len(lines)}")
+    if ctx.quick():
+        # bound the cost per codemod; configurations of multi-site programs first
+        per = {}
+        jobs.sort(key=lambda j: not j["name"].startswith("concat("))
+        kept = []
+        for j in jobs:
+            per[j["codemod"]] = per.get(j["codemod"], 0) + 1
+            if per[j["codemod"]] <= 36:
+                kept.append(j)
+        jobs = kept
+    rewrite(ctx, jobs, "lines")
+    changed = compare(ctx, jobs, "lines", "kf_line_filter_")
+    ctx.count("line_config:file_changed", len(changed))
+    ctx.count("line_config:file_unchanged", len(jobs) - len(changed))
+
+
+def run(ctx, kernel_programs=()):
+    progs = families(ctx.rng, ctx.quick()) + list(kernel_programs)
+    rewrite(ctx, progs, "fam")
+    for p in progs:
+        if p.get("after") is not None:
+            ctx.count(f"family:{p['codemod']}:" + ("changed" if p["after"] != p["source"] else "unchanged"))
+    compare(ctx, progs, "fam", "kf_unmodelled_")
+    line_stage(ctx, progs)
+
+
+def replay(ctx, body):
+    j = {"codemod": body["codemod"], "name": body.get("family", "?"), "source": body["program"], "extra_files": body.get("extra_files")}
+    for k in ("exclude", "include"):
+        if body.get(k):
+            j[k] = body[k]
+    rewrite(ctx, [j], "replay")
+    b = execute(ctx, "replay-a", j["source"], j.get("extra_files"))
+    a = execute(ctx, "replay-b", j["after"] or j["source"], j.get("extra_files"))
+    print("program   :\n" + j["source"])
+    print("rewritten :\n" + (j["after"] or "(CLI failed)"))
+    print("original  :", b, "  (recorded:", body.get("observed_original"), ")")
+    print("rewritten :", a, "  (recorded:", body.get("observed_rewritten"), ")")
+    print("expected  : equal observations (C08)")
+    return 0 if a == b else 1
